@@ -119,8 +119,12 @@ def runWfmt (detail : Bool) : List String → String
     | some v, (items, some wt) =>
       match parseAll parseItem items, parseAll parseW wt with
       | some items, some script =>
-        if v > 1 then "bad-op" else
-        let items := if v == 1 then .str [0x5b] :: (items ++ [.str [0x5d]]) else items
+        if v > 3 then "bad-op" else
+        if v ≥ 2 ∧ !items.isEmpty then "bad-op" else
+        let lit2 : List Nat := "done\n".toUTF8.toList.map (·.toNat)
+        let lit3 : List Nat := "literal text without arguments 0123456789 abcdefghijklmnopqrstuvwxyz".toUTF8.toList.map (·.toNat)
+        let items := if v == 1 then .str [0x5b] :: (items ++ [.str [0x5d]])
+          else if v == 2 then [.str lit2] else if v == 3 then [.str lit3] else items
         let o := writeFmt items script
         s!"{showResU o.res} sink={Drv.hex o.sink} used={o.used}" ++ tailLog detail o.log
       | _, _ => "bad-op"
